@@ -45,7 +45,8 @@ def run(writer, cfg, ops, root, chdir, workdir, extra_env=None, timeout=120):
     os.makedirs(chdir, exist_ok=True)
     cmd, lp = _cmd(writer, cfg, ops, chdir, workdir, ovl)
     try:
-        p = subprocess.run(cmd, env=_env(ovl, root, lp, extra_env), stdout=subprocess.DEVNULL, stderr=subprocess.PIPE, timeout=timeout)
+        p = subprocess.run(cmd, env=_env(ovl, root, lp, extra_env), stdout=subprocess.DEVNULL, stderr=subprocess.PIPE, timeout=timeout,
+                           cwd=(extra_env or {}).get("VERIF_PROC_CWD"))
         rc, err = p.returncode, p.stderr.decode(errors="replace")
     except subprocess.TimeoutExpired:
         from .campaign import HarnessError
@@ -69,7 +70,7 @@ def run_paused(writer, cfg, ops, root, chdir, workdir, on_point, timeout=600, ex
             os.unlink(f)
         os.mkfifo(f)
     p = subprocess.Popen(cmd, env=_env(ovl, root, lp, dict(extra_env or {}, FSX_FIFO_OUT=fo, FSX_FIFO_IN=fi)),
-                         stdout=subprocess.DEVNULL, stderr=subprocess.DEVNULL)
+                         stdout=subprocess.DEVNULL, stderr=subprocess.DEVNULL, cwd=(extra_env or {}).get("VERIF_PROC_CWD"))
     npoints = 0
     try:
         rfd = os.open(fo, os.O_RDONLY)
